@@ -205,6 +205,22 @@ CLAIMED["C20"] = (
     "TLC/SANY; Python's csv module (excel dialect) as reference reader/writer; cells classified by the documented conversion; numeric spellings "
     "of at most 15 significant digits; duplicate header names are a recorded known finding (F17b)",
     "DESIGN.md §4 C20")
+CLAIMED["C14"] = (
+    "TLC model checking of DateFormat.tla (calendar fields from the ordinal, the documented directive table as sets of acceptable texts, the "
+    "format scanner, duration recombination; ShapeOK/ScanOK, mutants refuted); every directive x every field value and random compositions "
+    "rendered by the library (directly and through set_cell_formatting / custom formats with save and reopen), durations through injected "
+    "duration formats; every displayed text judged by TLC (Trace_DateFormat)",
+    "DateFormat.tla derives weekday, day of year, week of month/year and n-th weekday from the proleptic Gregorian ordinal (CivilOK ties it to "
+    "year/month/day), states the directive table of docs/api/datetime.rst (both readings accepted where the documentation contradicts itself), "
+    "scans a format into fields, literals and quoted text and defines RenderSet as the concatenation of the parts; TLC checks the documented "
+    "range/padding of every numeric directive over a calendar of cases and the scanner laws, and refutes K24Replace / NoQuoteUnescape. ~24 000 "
+    "directive events (24 hours, 60 minutes/seconds, all 731 days of 2023-2024, boundary years), compositions with literals, quoted text and "
+    "escaped quotes, and the public route are judged by out in RenderSet(fmt, fields). Durations (unit boundaries +-1 ms up to 10 years x 21 "
+    "unit pairs x 3 styles + automatic units) are read unit by unit and must recombine, in <<days, ms>> limbs, to the duration truncated to the "
+    "smallest unit shown.",
+    "TLC/SANY; C-locale English month/day names; the harness splits a duration text into numbers and unit words, TLC does the reading; "
+    "compact automatic durations are accepted if some contiguous unit range reads back exactly",
+    "DESIGN.md §4 C14")
 NOT_YET = "check not built yet in this round (planned: see DESIGN.md section for this property)"
 NA = {}
 
